@@ -273,8 +273,8 @@ def run(R):
                 if k_:
                     tr.seed_bool(s_["d"], k_[1])
             tr.run()
-            from rules import final_edges
-            if tr.accept and push and all(not (g.reach((d,), avoid=push) & rets) for _, d in final_edges(g, tr.accept)):
+            from rules import accepted_path_misses
+            if tr.accept and push and not accepted_path_misses(g, tr.accept, tr.reject, push, rets):
                 okc = True
         if not okc:
             R.viol("C08.expiry", "expiry-polarity", "an in-flight entry with time_out < now is not dropped and recorded as failed", pe, pe.lines[0])
